@@ -94,8 +94,13 @@ class AsyncContext(object):
         if is_asyncio_mode():
             self.pause()
         else:
-            leave_context(self, self._active_task)
-            self.pause()
+            active_task = self._active_task
+            leave_context(self, active_task)
+            # If the block is left while the task's contexts are already paused (the task was
+            # completed while suspended and its generator is being closed), pause() has
+            # already been called for this context: don't call it a second time.
+            if active_task is None or active_task._contexts_active:
+                self.pause()
             del self._active_task
 
     def resume(self):
